@@ -11,5 +11,6 @@ for mp in sorted(glob.glob(os.path.join(ROOT, 'seeded', '*', 'meta.json'))):
     rows.append('| %s | %s | %s | %s | %s |' % (m['id'], m['change'].replace('|', '/'), m.get('needs_to_manifest', '').replace('|', '/'), verdict, m.get('miss_reason', ran)))
 tab = '| seed | change | needs | verdict | checks run / why missed |\n|------|--------|-------|---------|--------------------------|\n' + '\n'.join(rows) + '\n'
 p = os.path.join(ROOT, 'DESIGN.md'); s = open(p).read()
-s = re.sub(r'<!-- SEEDTABLE -->.*?(<!-- /SEEDTABLE -->|$)', '<!-- SEEDTABLE -->\n' + tab + '<!-- /SEEDTABLE -->', s, flags=re.S)
+rep = '<!-- SEEDTABLE -->\n' + tab + '<!-- /SEEDTABLE -->'
+s = re.sub(r'<!-- SEEDTABLE -->.*?(<!-- /SEEDTABLE -->|$)', lambda m: rep, s, flags=re.S)
 open(p, 'w').write(s); print(len(rows), 'rows')
